@@ -59,6 +59,7 @@ type faultCase struct {
 	crash *gen.CrashPoint
 	kline int
 	cfg   Cfg
+	rerun   bool // after the fault: run again in place without cleanup and judge the state after that
 	visible bool // kill the group the instant the target task's final path becomes visible
 	xdev    bool // the absolute output area is on another file system
 }
@@ -168,6 +169,15 @@ func c01(args []string) {
 			for _, ph := range []string{"start", "mid", "end"} {
 				cases = append(cases, &faultCase{tc: tc, label: "killgroup=" + ph, key: t.Key, opts: map[string]string{"killgroup": ph, "size": "9000"}, cfg: cfg()})
 			}
+		}
+		// history: the group is killed in the middle of a write of a command that appends to its output; then the
+		// workflow is run again in place without any cleanup
+		for k := 0; k < c.Pick(1, 3) && len(tasks) > 0; k++ {
+			t := tasks[rng.Intn(len(tasks))]
+			if t.InProc {
+				continue
+			}
+			cases = append(cases, &faultCase{tc: tc, label: "killgroup=mid+rerun-without-cleanup", key: t.Key, opts: map[string]string{"killgroup": "mid", "append": "1", "size": "5000"}, rerun: true, cfg: cfg()})
 		}
 		// kill at the instant a final path becomes visible (large outputs)
 		for k := 0; k < c.Pick(1, 4) && len(tasks) > 0; k++ {
@@ -283,7 +293,24 @@ func c01(args []string) {
 				return
 			}
 		}
-		ti := mon.Index(res.Trace)
+		allTrace := res.Trace
+		if fc.rerun && res.Signal != "" {
+			bh2 := vproto.Behaviours{}
+			for k, v := range bh {
+				m := map[string]string{}
+				for kk, vv := range v {
+					if kk != "killgroup" {
+						m[kk] = vv
+					}
+				}
+				bh2[k] = m
+			}
+			cs2 := &run.Case{Root: root, Bin: c.Bin, Spec: sp, Env: cfg.env(), Behav: bh2, KeepWd: true, RunNo: 1}
+			c.Eval(1)
+			r2 := cs2.Run()
+			allTrace = append(allTrace, r2.Trace...)
+		}
+		ti := mon.Index(allTrace)
 		snap := mon.SnapRoot(root)
 		ps := mon.Atomicity(root, snap, exp, ti, preRootSet(root, s))
 		fired := false
